@@ -40,6 +40,7 @@ type Ctx struct {
 	Shard       int
 	NShards     int
 	Skip        map[int64]bool // granular case indices to skip (culprits of an earlier hang / heap blow-up of this shard)
+	SkipEntry   map[string]bool // entry points whose cases are skipped wholesale (they hung or crashed the worker repeatedly)
 	Replay      bool
 
 	Counters map[string]int64
@@ -59,7 +60,7 @@ type Ctx struct {
 
 func NewCtx(prop, tier string, seed int64, shard, nshards int) *Ctx {
 	return &Ctx{
-		Prop: prop, Tier: tier, Seed: seed, Shard: shard, NShards: nshards, Skip: map[int64]bool{},
+		Prop: prop, Tier: tier, Seed: seed, Shard: shard, NShards: nshards, Skip: map[int64]bool{}, SkipEntry: map[string]bool{},
 		Counters: map[string]int64{}, Sets: map[string]map[string]struct{}{},
 		Samples: map[string][]any{}, Viols: map[string]*Violation{},
 		start: time.Now(),
@@ -87,6 +88,10 @@ func (c *Ctx) Begin(kind, entry string, in any) bool {
 		b, _ := json.Marshal(rep)
 		c.trace.Truncate(0)
 		c.trace.WriteAt(append(b, '\n'), 0)
+	}
+	if c.SkipEntry[entry] {
+		c.Counters["cases_skipped_after_repeated_hangs"]++
+		return false
 	}
 	return !c.Skip[c.caseIdx]
 }
